@@ -122,10 +122,25 @@ func init() {
 				}
 				var ev []gen.M
 				switch r.Intn(4) {
-				case 0: // random clause sequence as certificate
+				case 0: // random clause sequence as certificate, lines may mention the facts of the problem
 					var cert [][]int
+					var facts []int
+					for _, c := range clauses {
+						if len(c) == 1 {
+							facts = append(facts, c[0])
+						}
+					}
 					for j := 0; j < 1+r.Intn(4); j++ {
-						cert = append(cert, gen.RandClause(r, n, r.Intn(3), true))
+						line := gen.RandClause(r, n, r.Intn(4), true)
+						if len(facts) > 0 && r.Intn(2) == 0 {
+							f := facts[r.Intn(len(facts))]
+							if r.Intn(3) == 0 {
+								f = -f
+							}
+							pos := r.Intn(len(line) + 1)
+							line = append(line[:pos], append([]int{f}, line[pos:]...)...)
+						}
+						cert = append(cert, line)
 					}
 					if r.Intn(2) == 0 {
 						cert = append(cert, []int{})
